@@ -67,11 +67,19 @@ class Driver:
     def call(self, o, name, *args, **kw):
         obj = self.objs[o]
         meth = getattr(type(obj), name)
-        got = getattr(obj, name)(*args, **kw)
-        fresh = meth.__wrapped__(obj, *args, **kw)
+        # a call that rejects its arguments is an outcome like any other: same exception from the memoised and the plain method, and
+        # (checked at the next Collect) no reference to the object left behind
+        try:
+            got = digest(getattr(obj, name)(*args, **kw))
+        except Exception as e:      # noqa
+            got = f'raised:{type(e).__name__}:{e}'
+        try:
+            fresh = digest(meth.__wrapped__(obj, *args, **kw))
+        except Exception as e:      # noqa
+            fresh = f'raised:{type(e).__name__}:{e}'
         self.recs.append({'b': self.b, 'act': 'Call', 'o': o, 'm': name, 'x': repr((args, sorted(kw.items()))),
-                          'rtag': self.tag(digest(got)), 'ftag': self.tag(digest(fresh))})
-        del got, fresh
+                          'rtag': self.tag(got), 'ftag': self.tag(fresh)})
+        del obj
 
     def drop(self, o):
         del self.objs[o]
@@ -110,6 +118,14 @@ def probe_class():
         @weak_lru_cache(maxsize=8)
         def p(self, a=None, b=None, c=7):
             return ('p', self.data, a, b, c)
+
+        @weak_lru_cache(maxsize=8)
+        def q(self, x):
+            if x < 0:
+                raise ValueError(f'negative argument {x} for {self.data}')
+            if x == 0:
+                raise KeyError(x)
+            return ('q', self.data, x)
     return Probe
 
 
@@ -125,8 +141,10 @@ def probe_behaviour(b, rng, n_steps=80, max_live=12):
             d.create(Probe(('p', b, serial)))
         elif r < 0.7:
             o = live[int(rng.integers(0, len(live)))]
-            which = int(rng.integers(0, 4))
-            if which == 0:
+            which = int(rng.integers(0, 5))
+            if which == 4:
+                d.call(o, 'q', int(rng.integers(-2, 3)))               # rejected arguments (ValueError / KeyError) and accepted ones
+            elif which == 0:
                 d.call(o, 'f', int(rng.integers(0, 6)))
             elif which == 1:
                 d.call(o, 'g')
@@ -228,7 +246,7 @@ def real_behaviour(b, rng, n_objects=12, n_steps=60):
                         pass
                     d.call(o, 'matrix')
                 elif k == 'J':
-                    c = int(rng.integers(0, 6))
+                    c = int(rng.integers(0, 7))
                     if c == 0:
                         d.call(o, 'matrix')
                     elif c == 1:
@@ -258,8 +276,11 @@ def real_behaviour(b, rng, n_objects=12, n_steps=60):
                             d.call(o, 'to_graph', min_e_act=thr)
                         else:
                             d.call(o, 'to_graph', None, thr)
-                    else:
+                    elif rng.random() < 0.5:
                         d.call(o, '_counter')
+                    else:
+                        # more parts than there are events: the documented ValueError, through the memoised methods
+                        d.call(o, str(rng.choice(['rates', 'activation_energies'])), int(rng.choice([2, 3, 500, 1000])))
                 elif k == 'M':
                     c = int(rng.integers(0, 9))
                     if c == 0:
